@@ -33,7 +33,7 @@ RULE = ("each run is a batch of 40 byte strings parsed in a forked child (so tha
 COMPONENTS = {"real": ["all flat/grouped parse entry points of both integrations", "protobuf upb parser limits",
                        "io.BufferedReader", "the CPython allocator (resident memory measured from /proc)"],
               "stub": ["corrupting channel (corrupt / hostile fault kinds)", "watchdog and RLIMIT_AS safety net"]}
-ASSUMPTIONS = ["resident, not virtual, memory is judged: bound 48 MiB + 2048 x input length per input (memory proportional to the bytes actually received is allowed, memory proportional to declared sizes is not)",
+ASSUMPTIONS = ["resident, not virtual, memory is judged: bound 48 MiB + 64 x input length for the streaming consumers (flat, grouped), 48 MiB + 2048 x input length where the caller asked for a container that keeps every statement (to_graph, plugin)",
                "a MemoryError counts as an ordinary exception only when resident growth stayed within the bound",
                "hang = no result within 30 s for an input that normally takes < 5 ms, confirmed by two re-runs"]
 PROBES = ["kind_random", "kind_mutated", "kind_hostile", "returned", "raised", "raised_MemoryError",
@@ -42,7 +42,8 @@ PROBES = ["kind_random", "kind_mutated", "kind_hostile", "returned", "raised", "
 SHRINK_LISTS = ["inputs"]
 WALL = {"quick": 1500, "thorough": 20000}
 RSS_BASE = 48 << 20
-RSS_PER_BYTE = 2048      # an empty 1-byte frame costs one Python + one protobuf object (measured ~900 B)
+RSS_PER_BYTE = 64        # streaming consumers (flat, grouped) hold nothing once an item was handed out
+RSS_PER_BYTE_KEPT = 2048  # to_graph / plugin: the container keeps every statement (a 2-byte row -> one statement object)
 SHRINK_BUDGET = (60, 15.0)
 TIMEOUT = 30.0
 
@@ -506,7 +507,7 @@ def execute(plan, sim):
                 sim.count("raised_MemoryError")
         if oc in ("returned", "raised") and (res["items"] or oc == "raised"):
             keys.add((rec["kind"], rec["seed"], rec.get("template"), rec.get("op"), res["len"]))
-        bound = RSS_BASE + RSS_PER_BYTE * res["len"]
+        bound = RSS_BASE + (RSS_PER_BYTE_KEPT if rec["consumer"] in ("to_graph", "plugin") else RSS_PER_BYTE) * res["len"]
         if oc == "hang":
             # confirm twice, alone
             confirmed = all(run_batch([rec], sim, breaker=False)[0]["outcome"] == "hang" for _ in range(2))
